@@ -1,4 +1,4 @@
-import RsMatterVerif.Lemmas.Subs
+import RsMatterVerif.Lemmas.SubsLive
 /-!
 # C13 — a subscriber eventually learns every change it subscribed to
 
@@ -19,8 +19,16 @@ Theorems over `Model/Subs.lean` (the repaired `im/subscriptions.rs`).
 * (6) `event_pending_iff`, `events_not_pending_after_keep`.
 * counter-examples for the two defects of the unrepaired code: `purgeOld_breaks_cov`,
   `reportCompleteOld_drops_wrong_sub`.
-* eventuality: `C13_full` is *stated* (needs a fairness hypothesis about the reporter task and the
-  transport, which are outside the model); `C13_eventual_partial` is what is proved.
+* eventuality: `C13_full` (along every fair schedule a subscription that owes a recorded change gets
+  it acknowledged, or ends, or the device restarts) is **proved**: `C13_full_holds`,
+  `C13_delivered_or_ended`; the fairness hypothesis `Subs.Fair` is explicit (one reporter task, the
+  reporter pass with its expiry sweep runs again and again while time advances, every begun priming /
+  report completes with keep / retry / drop, no subscription stays un-primed for ever, no clock
+  overflow) and satisfiable (`fair_example`).  `report_begins`: under `Subs.Idle` an owing subscription
+  of the table is picked up by the reporter (or removed).  `C13_eventual_partial`: one reporting cycle.
+* persisted subscriptions: `persist_mirrors_table`, `restart_resumes`, `restart_resumes_all`,
+  `resumed_reports_everything`; `resumed_never_expires` + `retry_keeps_unprimed`: why the fairness
+  clause `primes` is needed (finding `C13-resumed-never-expires`).
 -/
 namespace C13
 open Subs
@@ -65,6 +73,12 @@ theorem nextId_step_le {s : State} (op : Op) (h : WF s) (hw : s.changed.nextId +
     simp only [State.step, State.purge]
     repeat' split
     all_goals simp
+  | persist => simp [State.step, State.persist]
+  | restart now ev =>
+    simp only [State.step]
+    rw [restart_changed]
+    have := h.nextPos
+    simp [Changed.new]
 
 /-- the invariant holds along every finite history (fewer than 2^64 changes) -/
 theorem cov_run (ops : List Op) : ∀ (s : State), WF s → Cov s →
@@ -196,6 +210,28 @@ theorem keep_commits_snapshot (c : Ctx) :
     c.commit.reportedAt = c.nextReportedAt := by
   simp [Ctx.commit]
 
+/-- `set_keep_unsent` (an empty report that was not sent): the watermarks advance, but the last-success
+instant, the retry state and therefore the liveness point, the minimum-interval gate and the expiry
+stay where they were — a stream of changes to attributes the subscriber did not select cannot
+postpone its liveness report (finding `C13-unsent-empty-report-restarts-liveness-clock`) -/
+theorem unsent_keeps_clock (hz : Nat) (c : Ctx) :
+    c.setKeepUnsent.commit.seenAttr = c.nextAttr ∧ c.setKeepUnsent.commit.seenEv = c.nextEv ∧
+    c.setKeepUnsent.commit.reportedAt = c.sub.reportedAt ∧
+    c.setKeepUnsent.commit.retryAt = c.sub.retryAt ∧ c.setKeepUnsent.commit.fail = c.sub.fail ∧
+    c.setKeepUnsent.commit.reportDueAt hz = c.sub.reportDueAt hz ∧
+    c.setKeepUnsent.commit.reportAllowedAt hz = c.sub.reportAllowedAt hz ∧
+    (∀ now, c.setKeepUnsent.commit.isExpired hz now = c.sub.isExpired hz now) := by
+  refine ⟨rfl, rfl, rfl, rfl, rfl, rfl, rfl, fun _ => rfl⟩
+
+/-- … whereas committing it like a delivered report (`set_keep`, the code before the repair) moves the
+liveness point to half a maximum interval after *this* empty report -/
+theorem keep_on_empty_postponed_liveness :
+    ∃ c : Ctx, c.sub.reportDueAt 1000000 = 30000000 ∧ c.commit.reportDueAt 1000000 = 59000000 :=
+  ⟨{ sub := { id := 1, fab := 1, peer := 1, minInt := 1, maxInt := 60, reportedAt := 0, retryAt := 0,
+              fail := 0, seenAttr := 0, seenEv := 0 },
+     nextAttr := 1, nextEv := 0, nextReportedAt := 29000000, nextRetryAt := 0, nextFail := 0 },
+   by decide, by decide⟩
+
 /-! ## (4) timing -/
 
 /-- no report before the minimum interval after the last delivered one -/
@@ -273,19 +309,30 @@ theorem wake_before_max {s : State} {x : Sub} (hx : x ∈ s.subs) (ev : Nat)
 
 /-- one maximum interval after its last delivered report a subscription is expired -/
 theorem failing_sub_expires_by_max (hz : Nat) (x : Sub) (now : Nat) (hnow : now ≤ IMAX)
-    (h : x.reportedAt + x.maxInt * hz ≤ now) : x.isExpired hz now = true := by
+    (hp : x.reportedAt ≠ IMAX) (h : x.reportedAt + x.maxInt * hz ≤ now) : x.isExpired hz now = true := by
   have : x.reportedAt + x.maxInt * hz ≤ IMAX := by omega
-  simp [Sub.isExpired, checkedAdd, this, h]
+  simp [Sub.isExpired, checkedAdd, this, h, hp]
 
-example : ∃ x : Sub, x.reportedAt + x.maxInt * 1000000 ≤ 70000000 :=
+/-- a subscription resumed after a restart that has not been primed since is expired one maximum
+interval after the resume instant (its last success was not later than that) -/
+theorem resumed_expires_by_max (hz : Nat) (x : Sub) (now : Nat) (hnow : now ≤ IMAX)
+    (hu : x.reportedAt = IMAX) (h : x.resumedAt + x.maxInt * hz ≤ now) : x.isExpired hz now = true := by
+  have : x.resumedAt + x.maxInt * hz ≤ IMAX := by omega
+  simp [Sub.isExpired, checkedAdd, this, h, hu]
+
+example : ∃ x : Sub, x.reportedAt ≠ IMAX ∧ x.reportedAt + x.maxInt * 1000000 ≤ 70000000 :=
   ⟨{ id := 1, fab := 1, peer := 1, minInt := 1, maxInt := 60, reportedAt := 0, retryAt := 0, fail := 0,
-     seenAttr := 0, seenEv := 0 }, by decide⟩
+     seenAttr := 0, seenEv := 0 }, by decide, by decide⟩
+
+example : ∃ x : Sub, x.reportedAt = IMAX ∧ x.resumedAt + x.maxInt * 1000000 ≤ 70000000 :=
+  ⟨{ id := 1, fab := 1, peer := 1, minInt := 1, maxInt := 60, reportedAt := IMAX, retryAt := 0, fail := 0,
+     seenAttr := 0, seenEv := 0, resumedAt := 5000000 }, by decide, by decide⟩
 
 /-- failed attempts do not postpone the expiry: `set_keep_retry` leaves `reported_at` and
 `max_int` alone, so `is_expired` answers the same before and after any number of retries -/
 theorem retry_preserves_expiry (hz : Nat) (c : Ctx) (now : Nat) :
     (c.setKeepRetry hz).commit.isExpired hz now = c.sub.isExpired hz now := by
-  simp [Sub.isExpired, Ctx.setKeepRetry, Ctx.commit]
+  rfl
 
 /-- the expiry sweep of the reporter loop leaves no expired subscription in the table -/
 theorem expiry_sweep_removes (s : State) (now : Nat) :
@@ -294,6 +341,21 @@ theorem expiry_sweep_removes (s : State) (now : Nat) :
   rw [h1]
   intro x hx
   exact removeLoop_all _ (s.subs.length + 1) s.subs s.count (by omega) x hx
+
+/-- the expiry sweep also reaches the subscription that is being reported on: it is marked and -/
+theorem sweep_cancels_in_flight (s : State) (p : Sub → Bool) (r : Sub) (hr : s.reporting = some r)
+    (hp : p r = true) : (s.remove p).1.cancelled = true ∧ (s.remove p).1.reporting = some r := by
+  unfold State.remove
+  simp only [hr]
+  cases hc : s.cancelled <;> simp [hp]
+
+/-- … dropped when its report context ends, whatever the ending (keep, retry or drop) -/
+theorem cancelled_report_ends (s : State) (sub r : Sub) (keep : Bool) (hr : s.reporting = some r)
+    (hid : r.id = sub.id) (hc : s.cancelled = true) :
+    (s.reportComplete sub keep).subs = s.subs ∧ (s.reportComplete sub keep).count = s.count - 1 ∧
+    (s.reportComplete sub keep).reporting = none ∧ (s.reportComplete sub keep).cancelled = false := by
+  unfold State.reportComplete
+  simp [hr, hid, hc]
 
 /-- the retry back-off never exceeds the maximum interval (or the base delay) -/
 theorem backoff_capped (fail maxInt : Nat) :
@@ -378,6 +440,11 @@ theorem table_capacity {s : State} (op : Op) (hw : WF s) (h : s.count ≤ s.n) :
     simp only [State.step, State.purge]
     repeat' split
     all_goals simpa using h
+  | persist => simpa [State.step, State.persist] using h
+  | restart now ev =>
+    simp only [State.step]
+    rw [restart_eq]
+    exact resumeAll_capacity now ev _ _ (by simp [State.fresh, State.new])
 
 /-! ## (6) events -/
 
@@ -453,46 +520,493 @@ theorem reportCompleteOld_drops_wrong_sub :
     (((witness2.fin 2 .keep).1.fin 1 .keep).1.subs.map (·.id)) = [2] := by
   refine ⟨by decide, by rfl, by rfl, by rfl⟩
 
-/-! ## Eventuality -/
+/-! ## Eventuality
 
-/-- the state after the first `k` operations of an infinite schedule -/
-def stateAt (hz n : Nat) (sched : Nat → Op) : Nat → State
-  | 0 => State.new hz n
-  | k + 1 => (stateAt hz n sched k).step (sched k)
+`stateAt`, `Owes`, `Fair`, the identity invariant `UID` and the tracking argument are in
+`Lemmas/SubsLive.lean`. -/
 
-/-- subscription `id` still owes change `i` in state `s` -/
-def Owes (s : State) (id i : Nat) : Prop := ∃ x ∈ s.live, x.id = id ∧ x.seenAttr < i
-
-/-- Fairness (a hypothesis about the reporter task and the transport, outside the model): every
-live subscription is, again and again, either ended or the subject of a report that begins later
-and is acknowledged (`fin … keep`). -/
-def Fair (hz n : Nat) (sched : Nat → Op) : Prop :=
-  ∀ k id, (∃ x ∈ (stateAt hz n sched k).live, x.id = id) →
-    ∃ k1 k2, k ≤ k1 ∧ k1 < k2 ∧
-      ((¬ ∃ x ∈ (stateAt hz n sched k2).live, x.id = id) ∨
-       ((∃ now ev, sched k1 = .report now ev ∧ ((stateAt hz n sched k1).report now ev).2 = some id) ∧
-        sched k2 = .fin id .keep ∧
-        ∀ j, k1 < j → j < k2 → sched j ≠ .fin id .retry ∧ sched j ≠ .fin id .drop))
-
-/-- **Full statement** (not proved: it needs `Fair`, whose discharge is the scheduling of the
-reporter task and the behaviour of the transport): along every fair schedule without id wrap, every
-change a live subscriber owes is eventually acknowledged, or the subscription ends. -/
+/-- **Full statement**: along every fair schedule (see `Subs.Fair` for the five clauses: one reporter
+task; the reporter pass with its expiry sweep runs again and again while time advances; every begun
+priming / report completes with keep, retry or drop; a subscription does not stay un-primed forever;
+the clock does not overflow) without change-id wrap, a subscription that owes a recorded change does
+not owe it forever. -/
 def C13_full : Prop :=
   ∀ (hz n : Nat) (sched : Nat → Op), Fair hz n sched →
     (∀ k, (stateAt hz n sched k).changed.nextId + 1 < U64) →
-    ∀ k id i, Owes (stateAt hz n sched k) id i → (∃ p, (i, p) ∈ (stateAt hz n sched k).log) →
-      ∃ k', k ≤ k' ∧ ¬ Owes (stateAt hz n sched k') id i
+    ∀ k id i p, (i, p) ∈ (stateAt hz n sched k).log →
+      Owes (stateAt hz n sched k) (stateAt hz n sched k).epoch id i →
+      ∃ k', k ≤ k' ∧ ¬ Owes (stateAt hz n sched k') (stateAt hz n sched k).epoch id i
 
-/-- the invariant along a schedule -/
-theorem inv_stateAt (hz n : Nat) (sched : Nat → Op)
-    (hw : ∀ k, (stateAt hz n sched k).changed.nextId + 1 < U64) :
-    ∀ k, WF (stateAt hz n sched k) ∧ Cov (stateAt hz n sched k) := by
+/-- `C13_full` is proved (by contradiction over the tracking invariant `Subs.Track`: an owing
+subscription that has been in the table since the change was recorded keeps its last-success instant
+`R` through every retry, every report begun for it snapshots a watermark ≥ `i`, so an acknowledgement
+ends the debt; if none comes, the sweep of a reporter pass at or after `R + max_int` removes it). -/
+theorem C13_full_holds : C13_full :=
+  fun _ _ _ hf hw k id i p hlog _ => eventually_not_owes hf hw k id i p hlog
+
+/-- what "does not owe any more" means: the device restarted, or the subscription has ended, or its
+acknowledged watermark has reached the change -/
+theorem not_owes_iff {s : State} (hu : UID s) (ep id i : Nat) :
+    ¬ Owes s ep id i ↔
+      s.epoch ≠ ep ∨ (∀ x ∈ s.live, x.id ≠ id) ∨ (∃ x ∈ s.live, x.id = id ∧ i ≤ x.seenAttr) := by
+  constructor
+  · intro h
+    by_cases he : s.epoch = ep
+    · right
+      by_cases hx : ∃ x ∈ s.live, x.id = id
+      · right
+        obtain ⟨x, hxl, hxid⟩ := hx
+        refine ⟨x, hxl, hxid, ?_⟩
+        apply Nat.le_of_not_lt
+        intro hlt
+        exact h ⟨he, x, hxl, hxid, hlt⟩
+      · left
+        intro x hxl hxid
+        exact hx ⟨x, hxl, hxid⟩
+    · left; exact he
+  · rintro (h | h | ⟨x, hxl, hxid, hge⟩) ⟨he, y, hyl, hyid, hlt⟩
+    · exact h he
+    · exact h y hyl hyid
+    · have := uid_eq hu hxl hyl (hxid.trans hyid.symm)
+      subst this
+      omega
+
+/-- **Eventual delivery, spelled out**: along a fair schedule every change a live subscription has
+not seen is, after finitely many steps, covered by an acknowledged report of that subscription (its
+committed watermark is ≥ the change id: `keep_commits_snapshot`, and while the report was in flight
+its filter selected the change: `owed_in_report`), or the subscription has ended, or the device has
+restarted (after which the resumed subscription is not primed and gets everything). -/
+theorem C13_delivered_or_ended {hz n : Nat} {sched : Nat → Op} (hf : Fair hz n sched)
+    (hw : ∀ k, (stateAt hz n sched k).changed.nextId + 1 < U64)
+    (k id i : Nat) (p : Entry) (hlog : (i, p) ∈ (stateAt hz n sched k).log) :
+    ∃ k', k ≤ k' ∧
+      ((stateAt hz n sched k').epoch ≠ (stateAt hz n sched k).epoch ∨
+       (∀ x ∈ (stateAt hz n sched k').live, x.id ≠ id) ∨
+       (∃ x ∈ (stateAt hz n sched k').live, x.id = id ∧ i ≤ x.seenAttr)) := by
+  obtain ⟨k', hk, h⟩ := eventually_not_owes hf hw k id i p hlog
+  exact ⟨k', hk, (not_owes_iff (inv_stateAt hz n sched hw k').2.2 _ id i).mp h⟩
+
+/-- a failed report changes neither the watermark nor the last-success instant nor the identity of the
+subscription: the retried report is for the same debt (this is the `retry` case of `Subs.track_step`) -/
+theorem retry_keeps_debt (hz : Nat) (c : Ctx) (i : Nat) (h : c.sub.seenAttr < i) :
+    (finSub hz c .retry).seenAttr < i ∧ (finSub hz c .retry).id = c.sub.id ∧
+    (finSub hz c .retry).reportedAt = c.sub.reportedAt := by
+  simp [finSub, Ctx.commit, Ctx.setKeepRetry, h]
+
+/-- **Where the fairness clause `primes` is needed, and only there**: a subscription that has neither
+a last success nor a resume instant (it was just added, its priming is in progress) is never expired,
+and a `set_keep_retry` (which `subscribe()` never calls on a priming context) would keep it so. -/
+theorem priming_never_expires (hz : Nat) (x : Sub) (now : Nat) (hu : x.expiryBase = IMAX)
+    (hm : 0 < x.maxInt * hz) : x.isExpired hz now = false := by
+  have : ¬ (IMAX + x.maxInt * hz ≤ IMAX) := by omega
+  unfold Sub.expiryBase at hu
+  simp [Sub.isExpired, checkedAdd, hu, this]
+
+theorem retry_keeps_expiry_base (hz : Nat) (c : Ctx) :
+    (finSub hz c .retry).expiryBase = c.sub.expiryBase := by
+  rfl
+
+/-- before the repair `fix: a resumed subscription expires one maximum interval after the restart`
+`is_expired` measured from `reported_at` only: a resumed subscription (`reported_at = Instant::MAX`)
+was never expired, and a failed report leaves it un-primed — with its subscriber gone for good it was
+retried, and persisted again, for ever (finding `C13-resumed-never-expires`) -/
+def isExpiredOld (hz : Nat) (s : Sub) (now : Nat) : Bool :=
+  match checkedAdd s.reportedAt (s.maxInt * hz) with
+  | some e => decide (e ≤ now)
+  | none => false
+
+theorem resumed_never_expired_before_fix (hz : Nat) (x : Sub) (now : Nat) (hu : x.reportedAt = IMAX)
+    (hm : 0 < x.maxInt * hz) : isExpiredOld hz x now = false := by
+  have : ¬ (IMAX + x.maxInt * hz ≤ IMAX) := by omega
+  simp [isExpiredOld, checkedAdd, hu, this]
+
+theorem retry_keeps_unprimed (hz : Nat) (c : Ctx) (hu : c.sub.reportedAt = IMAX) :
+    (finSub hz c .retry).reportedAt = IMAX := by
+  simp [finSub, Ctx.commit, Ctx.setKeepRetry, hu]
+
+example : ∃ x : Sub, x.reportedAt = IMAX ∧ 0 < x.maxInt * 1000000 :=
+  ⟨{ id := 1, fab := 1, peer := 1, minInt := 1, maxInt := 60, reportedAt := IMAX, retryAt := 0, fail := 0,
+     seenAttr := 0, seenEv := 0 }, rfl, by decide⟩
+
+/-! ### Restart with persisted subscriptions -/
+
+/-- `persist_all` mirrors the table: a subscription that is outside the table at that moment (being
+primed or reported on) is not written -/
+theorem persist_mirrors_table (s : State) : s.persist.kv = (s.subs.take s.n).map Sub.toRec := rfl
+
+/-- after a restart every subscription of the table is not primed (so it is reportable as soon as
+its retry gate allows: `unprimed_is_due`, and its next report selects every attribute:
+`State.shouldReportAttr` is `true`), nothing is in flight, the change table is empty and the
+invariants hold again -/
+theorem restart_resumes (s : State) (now ev : Nat) :
+    (∀ x ∈ (s.restart now ev).subs, x.reportedAt = IMAX ∧ x.retryAt = 0 ∧ x.resumedAt = now) ∧
+    (s.restart now ev).ctxs = [] ∧ (s.restart now ev).changed = Changed.new ∧
+    (s.restart now ev).log = [] ∧ (s.restart now ev).epoch = s.epoch + 1 ∧
+    WF (s.restart now ev) ∧ Cov (s.restart now ev) ∧ UID (s.restart now ev) := by
+  refine ⟨?_, ?_, restart_changed s now ev, ?_, restart_epoch s now ev, (inv_restart s now ev).1,
+    (inv_restart s now ev).2, uid_restart s now ev⟩
+  · intro x hx
+    rw [restart_eq] at hx
+    have := resumeAll_subs now ev (s.kv.take s.n) s.fresh (by simp [State.fresh, State.new]) x hx
+    exact ⟨this.1, this.2.1, this.2.2.2⟩
+  · rw [restart_eq, (resumeAll_changed now ev _ _).2.1]; rfl
+  · rw [restart_eq, (resumeAll_changed now ev _ _).2.2.1]; rfl
+
+/-- the records are resumed in slot order, with their intervals **and under their ids** (the id is
+what the subscriber knows the subscription by), when the records carry distinct ids -/
+theorem restart_resumes_all (s : State) (now ev : Nat)
+    (hnd : ((s.kv.take s.n).map (·.id)).Nodup) (hsome : ∀ r ∈ s.kv.take s.n, r.id ≠ none) :
+    (s.restart now ev).subs.map Sub.toRec = s.kv.take s.n := by
+  rw [restart_eq, resumeAll_map now ev _ _ (by simp [State.fresh, State.new]; exact Nat.min_le_left _ _) hnd]
+  · simp [State.fresh, State.new]
+  · intro r hr
+    cases hid : r.id with
+    | none => exact absurd hid (hsome r hr)
+    | some j => exact ⟨j, rfl, by simp [State.fresh, State.new]⟩
+
+theorem nodup_map_some : ∀ {l : List Nat}, l.Nodup → (l.map some).Nodup := by
+  intro l
+  induction l with
+  | nil => intro _; simp
+  | cons a l ih =>
+    intro h
+    simp only [List.nodup_cons, List.map_cons] at h ⊢
+    refine ⟨?_, ih h.2⟩
+    intro hm
+    obtain ⟨b, hb, he⟩ := List.mem_map.mp hm
+    have : b = a := by simpa using he
+    subst this
+    exact h.1 hb
+
+/-- what `persist_all` writes has distinct ids (identity invariant of the table) -/
+theorem persist_recs_distinct {s : State} (hu : UID s) :
+    ((s.persist.kv.take s.n).map (·.id)).Nodup ∧ ∀ r ∈ s.persist.kv.take s.n, r.id ≠ none := by
+  have hk : s.persist.kv.take s.n = (s.subs.take s.n).map Sub.toRec := by
+    simp only [State.persist]
+    rw [← List.map_take, List.take_take, Nat.min_self]
+  rw [hk]
+  constructor
+  · rw [List.map_map]
+    have h1 : (s.subs.map (·.id)).Nodup := by
+      have := hu.nodup
+      simp only [State.live, List.map_append] at this
+      exact (List.nodup_append.mp this).1
+    have h2 : ((s.subs.take s.n).map (·.id)).Nodup :=
+      List.Nodup.sublist ((List.take_sublist _ _).map _) h1
+    have : (fun x : Sub => (Sub.toRec x).id) = some ∘ (fun x : Sub => x.id) := rfl
+    show (List.map (fun x : Sub => (Sub.toRec x).id) (s.subs.take s.n)).Nodup
+    rw [this, ← List.map_map]
+    exact nodup_map_some h2
+  · intro r hr
+    obtain ⟨x, _, rfl⟩ := List.mem_map.mp hr
+    simp [Sub.toRec]
+
+/-- **persist, restart**: the subscriptions of the table come back in table order with their peers,
+intervals and ids (before `fix: a resumed subscription keeps its id` they came back under fresh ids
+1, 2, … in slot order — finding `C13-resumed-subscription-ids-reassigned`) -/
+theorem persist_restart_roundtrip {s : State} (hu : UID s) (now ev : Nat) :
+    (s.persist.restart now ev).subs.map Sub.toRec = (s.subs.take s.n).map Sub.toRec := by
+  obtain ⟨h1, h2⟩ := persist_recs_distinct hu
+  have hn : s.persist.n = s.n := rfl
+  rw [restart_resumes_all s.persist now ev (by rw [hn]; exact h1) (by rw [hn]; exact h2), hn]
+  simp only [State.persist]
+  rw [← List.map_take, List.take_take, Nat.min_self]
+
+/-- a resumed subscription reports immediately and its report is a full priming report -/
+theorem resumed_reports_everything (s : State) (now ev t : Nat) (x : Sub)
+    (hx : x ∈ (s.restart now ev).subs) (es : List Entry) (ev' : Nat) :
+    x.isReportable (s.restart now ev).hz t es ev' = true ∧
+    ∀ c : Ctx, c.sub = x → ∀ ep cl attr, (s.restart now ev).shouldReportAttr c ep cl attr = true := by
+  obtain ⟨h1, h2, _⟩ := (restart_resumes s now ev).1 x hx
+  refine ⟨unprimed_is_due _ x t es ev' h1 (by omega), ?_⟩
+  intro c hc ep cl attr
+  simp [State.shouldReportAttr, hc, h1]
+
+/-- **The reporter picks an owing subscription up** (what makes `C13_full` more than "it expires"):
+if the reporter's passes complete again and again while time advances (`Idle`), a subscription of the
+table that owes a recorded change does not sit in the table for ever — it leaves it, and
+(`Subs.leaves_table`) it can only leave it because the reporter begins a report for it whose snapshot
+is the current watermark (≥ the change, and `owed_in_report`: the report's filter selects it), or
+because a removal matches it, or by a restart. -/
+theorem report_begins {hz n : Nat} {sched : Nat → Op} (hidle : Idle hz n sched)
+    (hw : ∀ k, (stateAt hz n sched k).changed.nextId + 1 < U64) (k : Nat)
+    {x : Sub} (hx : x ∈ (stateAt hz n sched k).subs) {i : Nat} {p : Entry}
+    (hlog : (i, p) ∈ (stateAt hz n sched k).log) (hlt : x.seenAttr < i)
+    (hgate : x.reportAllowedAt hz < IMAX)
+    (hnr : ∀ j, k ≤ j → ∀ now ev, sched j ≠ .restart now ev) :
+    ∃ j, k ≤ j ∧ x ∈ (stateAt hz n sched j).subs ∧ x ∉ (stateAt hz n sched (j + 1)).subs ∧
+      ((∃ now ev, sched j = .report now ev ∧ ∃ c ∈ (stateAt hz n sched (j + 1)).ctxs,
+          c.sub = x ∧ i ≤ c.nextAttr) ∨
+       (∃ pr, sched j = .remove pr ∧ pr x = true)) := by
+  obtain ⟨k', now, ev, hk', hnow, hs, hnone⟩ := hidle k (x.reportAllowedAt hz) hgate
+  have hlg : ∀ d, (i, p) ∈ (stateAt hz n sched (k + d)).log := by
+    intro d
+    induction d with
+    | zero => exact hlog
+    | succ d ih =>
+      exact log_mono_step (sched (k + d)) (epoch_step _ _ (hnr (k + d) (by omega))) ih
+  have key : ∃ j, k ≤ j ∧ x ∈ (stateAt hz n sched j).subs ∧ x ∉ (stateAt hz n sched (j + 1)).subs := by
+    apply Classical.byContradiction
+    intro hno
+    have hstay : ∀ d, x ∈ (stateAt hz n sched (k + d)).subs := by
+      intro d
+      induction d with
+      | zero => exact hx
+      | succ d ih =>
+        apply Classical.byContradiction
+        intro h
+        exact hno ⟨k + d, by omega, ih, h⟩
+    have hxk' : x ∈ (stateAt hz n sched k').subs := by
+      have := hstay (k' - k); rwa [show k + (k' - k) = k' by omega] at this
+    have hlk' : (i, p) ∈ (stateAt hz n sched k').log := by
+      have := hlg (k' - k); rwa [show k + (k' - k) = k' by omega] at this
+    obtain ⟨_, hcov, _⟩ := inv_stateAt hz n sched hw k'
+    have hpend := owed_is_pending hcov hxk' hlk' hlt ev
+    have hrep := pending_is_reportable (stateAt hz n sched k').hz x now _ ev hpend
+      (by rw [hz_stateAt]; exact hnow)
+    exact report_progress ⟨x, hxk', hrep⟩ hnone
+  obtain ⟨j, hj, hin, hout⟩ := key
+  refine ⟨j, hj, hin, hout, ?_⟩
+  have hout' : x ∉ ((stateAt hz n sched j).step (sched j)).subs := hout
+  rcases leaves_table (sched j) hin hout' with ⟨nw, e, hop, c, hc, hcx, hcn⟩ | ⟨pr, hop, hpr⟩ | ⟨nw, e, hop⟩
+  · left
+    refine ⟨nw, e, hop, c, hc, hcx, ?_⟩
+    obtain ⟨hwf, _, _⟩ := inv_stateAt hz n sched hw j
+    have h3 := watermark_eq hwf.nextPos hwf.nextLt
+    have h4 := hwf.logBelow (i, p) (by have := hlg (j - k); rwa [show k + (j - k) = j by omega] at this)
+    simp only at h4
+    omega
+  · right; exact ⟨pr, hop, hpr⟩
+  · exact absurd hop (hnr j hj nw e)
+
+/-! ### The hypotheses of `C13_full` are satisfiable -/
+
+/-- a fair schedule: a subscriber is primed, a change is recorded, reported and acknowledged; from
+then on only the reporter's expiry sweep runs (at the last instant of the clock) -/
+def fairSched : Nat → Op
+  | 0 => .add 0 1 10 1 60 0
+  | 1 => .fin 1 .keep
+  | 2 => .change (P 1 2 3)
+  | 3 => .report 5000000 0
+  | 4 => .fin 1 .keep
+  | _ => .remove (fun x => x.isExpired 1000000 (IMAX - 1))
+
+abbrev fS (k : Nat) : State := stateAt 1000000 1 fairSched k
+
+theorem fS_const : ∀ j, fS (6 + j) = fS 6 := by
+  intro j
+  induction j with
+  | zero => rfl
+  | succ j ih =>
+    show (fS (6 + j)).step (fairSched (6 + j)) = fS 6
+    rw [ih]
+    have : fairSched (6 + j) = .remove (fun x => x.isExpired 1000000 (IMAX - 1)) := by
+      unfold fairSched
+      split <;> first | rfl | omega
+    rw [this]
+    rfl
+
+
+theorem fairSched_ge (k : Nat) (h : 5 ≤ k) :
+    fairSched k = .remove (fun x => x.isExpired 1000000 (IMAX - 1)) := by
+  unfold fairSched
+  split <;> first | rfl | omega
+
+theorem fS_ge (k : Nat) (h : 6 ≤ k) : fS k = fS 6 := by
+  have := fS_const (k - 6)
+  rwa [show 6 + (k - 6) = k by omega] at this
+
+theorem fair_primed (k : Nat) (h : 2 ≤ k) : ∀ x ∈ (fS k).live, x.expiryBase ≠ IMAX := by
+  match k, h with
+  | 2, _ => decide
+  | 3, _ => decide
+  | 4, _ => decide
+  | 5, _ => decide
+  | k + 6, _ => rw [fS_ge (k + 6) (by omega)]; decide
+
+theorem fair_horizon (k : Nat) : ∀ x ∈ (fS k).live, x.expiryBase + x.maxInt * 1000000 < IMAX ∨ x.expiryBase = IMAX := by
+  match k with
+  | 0 => decide
+  | 1 => decide
+  | 2 => decide
+  | 3 => decide
+  | 4 => decide
+  | 5 => decide
+  | k + 6 => rw [fS_ge (k + 6) (by omega)]; decide
+
+theorem fair_example : Fair 1000000 1 fairSched := by
+  refine ⟨?_, ?_, ?_, ?_, ?_⟩
+  · -- one reporter
+    intro k now ev h
+    match k, h with
+    | 0, h => cases h
+    | 1, h => cases h
+    | 2, h => cases h
+    | 3, _ => rfl
+    | 4, h => cases h
+    | k + 5, h => rw [fairSched_ge (k + 5) (by omega)] at h; cases h
+  · -- the sweep runs for ever, at the last instant of the clock
+    intro k T hT
+    refine ⟨k + 6, IMAX - 1, _, by omega, by omega, fairSched_ge (k + 6) (by omega), fun x h => h, ?_⟩
+    show (fS (k + 6)).reporting = none
+    rw [fS_ge (k + 6) (by omega)]; rfl
+  · -- the two contexts complete
+    intro k c hc
+    match k, hc with
+    | 0, hc => simp [stateAt, State.new] at hc
+    | 1, hc =>
+      have hm : (fS 1).ctxs.map (fun c : Ctx => c.sub.id) = [1] := by decide
+      have h1 : c.sub.id = 1 := by
+        have h2 : c.sub.id ∈ (fS 1).ctxs.map (fun c : Ctx => c.sub.id) := List.mem_map_of_mem hc
+        rw [hm] at h2; simpa using h2
+      exact ⟨1, .keep, Nat.le_refl _, by rw [h1]; rfl⟩
+    | 2, hc => have : (fS 2).ctxs = [] := by decide
+               rw [this] at hc; cases hc
+    | 3, hc => have : (fS 3).ctxs = [] := by decide
+               rw [this] at hc; cases hc
+    | 4, hc =>
+      have hm : (fS 4).ctxs.map (fun c : Ctx => c.sub.id) = [1] := by decide
+      have h1 : c.sub.id = 1 := by
+        have h2 : c.sub.id ∈ (fS 4).ctxs.map (fun c : Ctx => c.sub.id) := List.mem_map_of_mem hc
+        rw [hm] at h2; simpa using h2
+      exact ⟨4, .keep, Nat.le_refl _, by rw [h1]; rfl⟩
+    | 5, hc => have : (fS 5).ctxs = [] := by decide
+               rw [this] at hc; cases hc
+    | k + 6, hc =>
+      have h6 : (fS 6).ctxs = [] := by decide
+      have : (fS (k + 6)).ctxs = [] := by rw [fS_ge (k + 6) (by omega)]; exact h6
+      rw [this] at hc; cases hc
+  · -- the priming of subscription 1 completes at step 1
+    intro k x hx hu
+    match k, hx with
+    | 0, hx => simp [stateAt, State.new, State.live] at hx
+    | 1, _ => exact ⟨2, by omega, Or.inr (fun y hy _ => fair_primed 2 (by omega) y hy)⟩
+    | 2, hx => exact absurd hu (fair_primed 2 (by omega) x hx)
+    | 3, hx => exact absurd hu (fair_primed 3 (by omega) x hx)
+    | 4, hx => exact absurd hu (fair_primed 4 (by omega) x hx)
+    | k + 5, hx => exact absurd hu (fair_primed (k + 5) (by omega) x hx)
+  · intro k x hx hne
+    rcases fair_horizon k x hx with h | h
+    · exact h
+    · exact absurd h hne
+
+
+theorem fair_nowrap : ∀ k, (fS k).changed.nextId + 1 < U64 := by
   intro k
-  induction k with
-  | zero => exact inv_init hz n
-  | succ k ih => exact inv_step (sched k) ih.1 ih.2 (hw k)
+  match k with
+  | 0 => decide
+  | 1 => decide
+  | 2 => decide
+  | 3 => decide
+  | 4 => decide
+  | 5 => decide
+  | k + 6 => rw [fS_ge (k + 6) (by omega)]; decide
 
-/-- **Proved part of the eventuality** (one reporting cycle, no fairness needed): in every reachable
+/-- a fair schedule without wrap on which a subscription owes a recorded change (after step 2) and
+has it acknowledged (after step 4) -/
+example : ∃ (hz n : Nat) (sched : Nat → Op), Fair hz n sched ∧
+    (∀ k, (stateAt hz n sched k).changed.nextId + 1 < U64) ∧
+    ∃ k id i p, (i, p) ∈ (stateAt hz n sched k).log ∧
+      Owes (stateAt hz n sched k) (stateAt hz n sched k).epoch id i ∧
+      ¬ Owes (stateAt hz n sched (k + 2)) (stateAt hz n sched k).epoch id i := by
+  refine ⟨1000000, 1, fairSched, fair_example, fair_nowrap, 3, 1, 1, P 1 2 3, by decide, ?_, ?_⟩
+  · exact ⟨rfl, sub1', by decide, rfl, by decide⟩
+  · rintro ⟨_, x, hx, hid, hlt⟩
+    have h : ∀ x ∈ (fS 5).live, ¬ (x.id = 1 ∧ x.seenAttr < 1) := by decide
+    exact h x hx ⟨hid, hlt⟩
+
+
+/-- like `fairSched`, then one expiry sweep and reporter passes that find nothing for ever -/
+def idleSched : Nat → Op
+  | 0 => .add 0 1 10 1 60 0
+  | 1 => .fin 1 .keep
+  | 2 => .change (P 1 2 3)
+  | 3 => .report 5000000 0
+  | 4 => .fin 1 .keep
+  | 5 => .remove (fun x => x.isExpired 1000000 (IMAX - 1))
+  | _ => .report (IMAX - 1) 0
+
+abbrev iS (k : Nat) : State := stateAt 1000000 1 idleSched k
+
+theorem idleSched_ge (k : Nat) (h : 6 ≤ k) : idleSched k = .report (IMAX - 1) 0 := by
+  unfold idleSched
+  split <;> first | rfl | omega
+
+theorem iS_ge (k : Nat) (h : 6 ≤ k) : iS k = iS 6 := by
+  have : ∀ j, iS (6 + j) = iS 6 := by
+    intro j
+    induction j with
+    | zero => rfl
+    | succ j ih =>
+      show (iS (6 + j)).step (idleSched (6 + j)) = iS 6
+      rw [ih, idleSched_ge (6 + j) (by omega)]
+      rfl
+  have := this (k - 6)
+  rwa [show 6 + (k - 6) = k by omega] at this
+
+theorem idle_example : Idle 1000000 1 idleSched := by
+  intro k T hT
+  refine ⟨k + 6, IMAX - 1, 0, by omega, by omega, idleSched_ge (k + 6) (by omega), ?_⟩
+  show ((iS (k + 6)).report (IMAX - 1) 0).2 = none
+  rw [iS_ge (k + 6) (by omega)]
+  rfl
+
+/-- the hypotheses of `report_begins` are satisfiable: after step 2 subscription 1 sits in the table
+and owes change 1 -/
+example : ∃ (hz n : Nat) (sched : Nat → Op) (k : Nat) (x : Sub) (i : Nat) (p : Entry),
+    Idle hz n sched ∧ (∀ k, (stateAt hz n sched k).changed.nextId + 1 < U64) ∧
+    x ∈ (stateAt hz n sched k).subs ∧ (i, p) ∈ (stateAt hz n sched k).log ∧ x.seenAttr < i ∧
+    x.reportAllowedAt hz < IMAX ∧ (∀ j, k ≤ j → ∀ now ev, sched j ≠ .restart now ev) := by
+  refine ⟨1000000, 1, idleSched, 3, sub1', 1, P 1 2 3, idle_example, ?_, by decide, by decide, by decide,
+    by decide, ?_⟩
+  · intro k
+    match k with
+    | 0 => decide
+    | 1 => decide
+    | 2 => decide
+    | 3 => decide
+    | 4 => decide
+    | 5 => decide
+    | k + 6 => show (iS (k + 6)).changed.nextId + 1 < U64; rw [iS_ge (k + 6) (by omega)]; decide
+  · intro j _ now ev h
+    unfold idleSched at h
+    split at h <;> cases h
+
+
+/-! ### Why `Idle` is a hypothesis: a reporter pass need not end -/
+
+/-- three primed subscriptions with `min_int = 0` -/
+def starve0 : State :=
+  let s := State.new 1000000 3
+  let s := ((s.add 0 1 10 0 60 0).1.fin 1 .keep).1
+  let s := ((s.add 0 1 11 0 60 0).1.fin 2 .keep).1
+  ((s.add 0 1 12 0 60 0).1.fin 3 .keep).1
+
+/-- two reports of one reporter pass (`now` is fixed during a pass); a change arrives while each of
+them is in flight -/
+def starveCycle (s : State) : State × List (Option Nat) :=
+  let s := s.change (P 1 2 3)
+  let r1 := s.report 1000 0
+  let s := ((r1.1.change (P 1 2 3)).fin (r1.2.getD 0) .keep).1
+  let r2 := s.report 1000 0
+  let s := ((r2.1.change (P 1 2 3)).fin (r2.2.getD 0) .keep).1
+  (s, [r1.2, r2.2])
+
+/-- **Observation (starvation under continuous load).** `find_reportable` takes the first reportable
+subscription of the table, an acknowledged one is pushed to the end and `swap_remove` moves the last
+one to the front: with two `min_int = 0` subscribers and a change arriving during every report the
+pass alternates between subscriptions 1 and 3 and the table order is the same after every cycle —
+subscription 2 (reportable all the time) is not reported on, and the expiry sweep, which only runs
+at the begin of a pass, does not run either.  Any pause in the changes ends the pass. -/
+theorem starvation_cycle :
+    (starveCycle starve0).2 = [some 1, some 3] ∧
+    (starveCycle (starveCycle starve0).1).2 = [some 1, some 3] ∧
+    (starveCycle (starveCycle (starveCycle starve0).1).1).2 = [some 1, some 3] ∧
+    (starveCycle (starveCycle (starveCycle starve0).1).1).1.subs.map (·.id) = starve0.subs.map (·.id) ∧
+    (∀ x ∈ (starveCycle starve0).1.subs, x.id = 2 → x.seenAttr = 0) := by
+  refine ⟨by decide, by decide, by decide, by decide, by decide⟩
+
+/-- **One reporting cycle** (no fairness needed): in every reachable
 state, for a subscription `x` of the table that owes change `(i, p)`:
 * it is pending, hence reportable once `report_allowed_at ≤ now`, a report is then begun and the
   reporter does not sleep past that instant;
@@ -514,7 +1028,7 @@ theorem C13_eventual_partial (hz n : Nat) (sched : Nat → Op)
       (c ∉ s.ctxs → i ≤ c.commit.seenAttr) ∧
       (c.setKeepRetry s.hz).commit.seenAttr = x.seenAttr) := by
   intro s
-  obtain ⟨hwf, hcov⟩ := inv_stateAt hz n sched hw k
+  obtain ⟨hwf, hcov, _⟩ := inv_stateAt hz n sched hw k
   have hpend := owed_is_pending hcov hx hlog hlt ev
   refine ⟨report_progress ⟨x, hx, pending_is_reportable _ x now _ ev hpend ha⟩,
     wake_not_late hx ev hpend, ?_⟩
